@@ -109,3 +109,32 @@ func init() {
 		StateRule:   "distinct unordered pairs of operation kinds that ran in different tasks of one simulation, and (plan kind, #tasks bucket)",
 	}
 }
+
+func init() {
+	checks["C06"] = &checkCfg{
+		Property: "C06", Engine: "segreuse", Level: "exploration",
+		Runs: map[string]int{"quick": 300000, "thorough": 6000000}, Chunk: 500, RunTimeoutS: 60, RefOnHang: true,
+		Rule: "one case = one seeded history (4-40 operations) on one segmenter.Segmenter: Init with texts of 0-64 runes over a class-representative alphabet derived at start-up from the library's tables (one rune per distinct combination of line/grapheme/word class, East-Asian width, Extended_Pictographic, general category) plus regional indicators and real-text samples, in adversarial size patterns (long, short, empty, long; shrinking); creation of line/grapheme/word iterators; Next on any live iterator in any interleaving; the caller scribbling over the slice it passed to Init. Every Next is compared with the boundary list a fresh Segmenter yields, and the protocol invariants (non-empty, consecutive, slice of the input, coverage of the input, last line mandatory) are evaluated against the input. distinct = distinct hash of the case; non-trivial = the segmenter was re-initialised, iterators were interleaved or the input slice was scribbled over.",
+		Assumptions: []string{
+			"RESTRICTED CLAIM: only the history clauses of C06 (independence from earlier use, iteration protocol) are decided; that the boundaries are those of UAX #14/#29 is a pure function of the rune string and is not decided (a fresh Segmenter is trusted for the rules)",
+			"iterators are used only until the next Init (they read the segmenter's storage)",
+		},
+		Real:        []string{"segmenter.Segmenter (Init, LineIterator, GraphemeIterator, WordIterator)", "unicodedata class tables"},
+		Stub:        []string{"none"},
+		TimeMeasure: "operations executed",
+		StateRule:   "distinct (previous op > op) pairs and text length buckets",
+	}
+	checks["C07"] = &checkCfg{
+		Property: "C07", Engine: "itemreuse", Level: "exploration",
+		Runs: map[string]int{"quick": 60000, "thorough": 2000000}, Chunk: 100, RunTimeoutS: 60, RefOnHang: true,
+		Rule: "one case = one seeded history (3-25 Split calls) on one shaping.Segmenter over a pool of corpus faces: mixed LTR/RTL/digits/brackets/neutrals/vertical CJK texts and texts drawn from the faces' cmaps, random sub-ranges, the 8 meaningful directions (horizontal, vertical with unresolved, upright and sideways orientation), languages, and three Fontmap kinds (fixed slice, a script-aware map whose answers depend on the last SetScript, a real fontscan.FontMap). Each result is compared with a fresh Segmenter and checked against the invariants: consecutive non-empty runs covering the range, text/size/features untouched, single bidi parity (re-derived with an independent bidi.Paragraph on the sub-range), single strong script, uniform orientation, face resolution of every font-selecting rune, language compatible with script; and it must stay intact until the next Split. distinct = distinct hash of the case; non-trivial = the segmenter was actually reused.",
+		Assumptions: []string{
+			"RESTRICTED CLAIM: the history clause, the ownership rule and the listed invariants are decided; that the chosen run boundaries are the right ones beyond those invariants is a pure input-output question and is not decided",
+			"x/text bidi is trusted for embedding levels",
+		},
+		Real:        []string{"shaping.Segmenter.Split (splitByBidi, splitByScript, enforceLanguages, splitByVertOrientation, splitByFace)", "fontscan.FontMap as Fontmap"},
+		Stub:        []string{"none"},
+		TimeMeasure: "operations executed",
+		StateRule:   "distinct (#runs bucket, direction, fontmap kind, sub-range?) tuples",
+	}
+}
